@@ -70,7 +70,7 @@ def main():
             shutil.copy(p, tmp)
             p = tmp
         prop, verdict, out, dt = run_one(p)
-        lines = [l for l in out.splitlines() if l.startswith(("VIOLATION", "  class=", "HARNESS"))][:4]
+        lines = [l for l in out.splitlines() if l.startswith(("VIOLATION", "  class=", "HARNESS", "NOTE"))][:4]
         print(f"{name}: {verdict} ({dt:.0f}s) " + " | ".join(lines)[:300], flush=True)
         results.append({"mutant": name, "property": prop, "verdict": verdict, "wall_s": round(dt, 1)})
         if verdict != "killed":
